@@ -602,7 +602,7 @@ def case_label(c):
     return 'doc %s/%s/%s' % (c['fmt'], '+'.join(c['toks']), c['cs'])
 
 
-SKIP_OK = ('rd_mailto', 'rd_data_url')
+SKIP_OK = ('rd_mailto', 'rd_data_url', 'au_401_post')
 FP_SITES = ('fp_connect', 'fp_reply_readline', 'fp_reply_parse', 'fp_reply_code', 'fp_login_code', 'fp_pasv_parse',
             'fp_data_connect', 'fp_data_read', 'fp_end_code', 'fp_listing_parse')
 PP_SITES = tuple('pp_' + x[3:] for x in FP_SITES if x != 'fp_login_code')
